@@ -332,7 +332,39 @@ def report_oracle_fail(ctx, line):
         ctx.violation("harness-oracle", line[:400], line + "\n")
 
 
-def compare(ctx, name, ops, impl, model, corr_broken, props_for_io=True):
+def confirm_disagreement(ctx, binp, testname, name, ops, i):
+    """Re-execute the history that contains op i (from its `reset`) twice on fresh nsqd instances and
+    compare again. A disagreement that does not reproduce is an artefact of the run (scheduling under
+    load), not of the tree: it is noted in the evidence and not counted."""
+    j = i
+    while j > 0 and not ops[j].startswith("reset"):
+        j -= 1
+    case = [o for o in ops[j:i + 1] if o.split()[0] in ("reset", "io", "http", "iof")]
+    for attempt in range(2):
+        d = os.path.join(ctx.work, "confirm_%s_%d_%d" % (name, i, attempt))
+        os.makedirs(os.path.join(d, "corpus"), exist_ok=True)
+        with open(os.path.join(d, "corpus", "00_case.ops"), "w") as f:
+            f.write("\n".join(case) + "\n")
+        rc, out = ctx.run_cmd([binp, "-test.run", "^%s$" % testname, "-test.count=1"], timeout=600,
+                              env={"VERIF_SEED": ctx.seed, "VERIF_N": 0, "VERIF_OUT": d, "VERIF_REPO": REPO,
+                                   "VERIF_CORPUS": os.path.join(d, "corpus")})
+        opsf = os.path.join(d, name + ".ops")
+        if rc != 0 or not os.path.exists(opsf):
+            return True
+        o2 = open(opsf).read().splitlines()
+        i2 = open(os.path.join(d, name + ".impl")).read().splitlines()
+        saved = ctx.work
+        ctx.work = d
+        try:
+            m2 = run_driver(ctx, binp, opsf, name)
+        finally:
+            ctx.work = saved
+        if any(a != b for a, b in zip(i2, m2)) or len(i2) != len(m2):
+            return True
+    return False
+
+
+def compare(ctx, name, ops, impl, model, corr_broken, props_for_io=True, binp=None, testname=None):
     """Diff + direct oracles over one ops/impl/model triple."""
     confs = parse_confs(ops)
     ndiff = 0
@@ -365,6 +397,12 @@ def compare(ctx, name, ops, impl, model, corr_broken, props_for_io=True):
                     ctx.violation(bad[0], bad[1] + " (conf %s)" % w[1],
                                   "%s\n%s\n# impl: %s\n# model: %s\n" % (ops_conf_line(ops, w[1]), o, a, b))
         if a != b:
+            if binp and ndiff < 3 and w[0] in ("io", "http", "iof") and not confirm_disagreement(
+                    ctx, binp, testname, name, ops, i):
+                ctx.notes.append("transient model/impl disagreement (not reproduced in 2 re-executions of its "
+                                 "history, ignored): %s | impl %s | model %s" % (o[:300], a[:300], b[:300]))
+                ctx.log("transient disagreement, not reproducible: %s" % o[:120])
+                continue
             ndiff += 1
             if ndiff <= 5:
                 ctx.log("model/impl disagree on `%s`:\n   impl  %s\n   model %s" % (o[:200], a[:300], b[:300]))
@@ -462,7 +500,7 @@ def run(ctx):
             ops = open(opsf).read().splitlines()
             impl = open(os.path.join(ctx.work, "proto.impl")).read().splitlines()
             model = run_driver(ctx, binp, opsf, "proto")
-            compare(ctx, "proto", ops, impl, model, corr_broken)
+            compare(ctx, "proto", ops, impl, model, corr_broken, binp=binp, testname="TestVerifE3Proto")
             spec_oracle(ctx, ops, impl, [l for l in ops if l.startswith("json ")] + getattr(ctx, "_e3_json", []))
             for o, i in list(zip(ops, impl)):
                 if o.startswith("io ") and len(o) < 300:
